@@ -15,6 +15,7 @@ import common as C
 import fullrun as FR
 
 STATIC = ["Model/Sev.vo"]
+EXTRA_PROPS = ["C05b"]
 
 
 def run(chk):
